@@ -432,12 +432,11 @@ impl Vm {
         spans.extend(std::iter::repeat_n(span, 7));
     }
 
-    pub fn current_offset(&self) -> u16 {
-        self.bytecode[self.current_chunk_index].1.len() as u16
+    pub fn current_offset(&self) -> usize {
+        self.bytecode[self.current_chunk_index].1.len()
     }
 
-    pub fn patch_u16_value_at(&mut self, offset: u16, arg: u16) {
-        let offset = offset as usize;
+    pub fn patch_u16_value_at(&mut self, offset: usize, arg: u16) {
         let (bytecode, _spans) = self.current_chunk_mut();
         bytecode[offset] = (arg & 0xff) as u8;
         bytecode[offset + 1] = ((arg >> 8) & 0xff) as u8;
